@@ -455,12 +455,12 @@ func manifestDecode(p *run.Part, cc c12Case, c cid.Cid, raw []byte) {
 		// loading through the manifest must be safe as well
 		// the store holds the blocks the genuine manifest leads to: heads that exist are really loaded
 		st := store.New()
+		st.PutRaw(c, raw)
 		for _, bc := range c12Blocks.Adds {
-			if b, ok := c12Blocks.Raw(bc); ok {
+			if b, ok := c12Blocks.Raw(bc); ok && !bc.Equals(c) {
 				st.PutRaw(bc, b)
 			}
 		}
-		st.PutRaw(c, raw)
 		pv, stack = run.Safe(func() {
 			l, lerr := ipfslog.NewFromMultihash(world.Ctx, st, world.IDs[0], c, &ipfslog.LogOptions{}, &ipfslog.FetchOptions{})
 			if lerr == nil {
